@@ -49,6 +49,37 @@ Definition total (l : list nat) : nat := fold_right Nat.add 0 l.
 Definition emb_values (e : efeat) : block := map (@concat val) (e_rows e).
 Definition emb_width (e : efeat) : nat := total (e_dims e).
 
+(* ---------------------------------------------------------------- feat_dict as a dictionary *)
+(* TensorFrame.feat_dict: a Python dict from (parent) stype to tensor data, in insertion
+   order.  The adapters only ever ask `stype.X in tf.feat_dict` and `tf.feat_dict[stype.X]`
+   for X in {categorical, numerical, embedding}; every other entry is [POther]. *)
+Inductive payload :=
+| PCat (c : feat Z)
+| PNum (f : feat val)
+| PEmb (e : efeat)
+| POther.                         (* timestamp / multicategorical / sequence_numerical / text_tokenized ... data *)
+
+Definition feat_dict := list (stype * payload).
+
+(* d[k] / k in d : first entry with that key (keys of a dict are unique anyway) *)
+Fixpoint lookup (k : stype) (d : feat_dict) : option payload :=
+  match d with
+  | [] => None
+  | (k', p) :: r => if stype_eqb k k' then Some p else lookup k r
+  end.
+
+(* the view the adapters take of the dictionary.  None: a key holds data of the wrong
+   kind (excluded by TensorFrame's own validation; not a frame) *)
+Definition frame_of_dict (d : feat_dict) (y : option (list val)) : option tframe :=
+  match lookup st_categorical d, lookup st_numerical d, lookup st_embedding d with
+  | (None | Some (PCat _)) as c, (None | Some (PNum _)) as n, (None | Some (PEmb _)) as e =>
+      Some {| tf_cat := match c with Some (PCat x) => Some x | _ => None end;
+              tf_num := match n with Some (PNum x) => Some x | _ => None end;
+              tf_emb := match e with Some (PEmb x) => Some x | _ => None end;
+              tf_y := y |}
+  | _, _, _ => None
+  end.
+
 (* ---------------------------------------------------------------- concatenation along columns *)
 Definition hcat2 (a b : block) : option block :=
   if length a =? length b then Some (map (fun p => fst p ++ snd p) (combine a b))
